@@ -12,8 +12,8 @@ AREAS = ["work", "home", "gtd", "a1"]
 CONTEXTS = ["desk", "phone", "home"]
 PEOPLE = ["bob", "ann"]
 PROJECTS = ["zorg", "proj_x", "gtd"]
-PLAIN = ["alpha", "beta", "gamma", "Foo", "BAR", "mixedCase", "x9", "2024", "note", "the", "of", "task", "Build", "fix", "bug"]
-META = ["50%_done", "a_b", "back\\slash", "it's", "100%", "under_score", "a%b", "x_y_z", "Foo_bar", "c:\\dir", "q?", "*star*", "[sq]", "semi;colon", "pi|pe"]
+PLAIN = ["alpha", "beta", "gamma", "Foo", "BAR", "mixedCase", "x9", "2024", "memo", "the", "of", "task", "Build", "fix", "bug"]
+META = ["50%_done", "a_b", "back\\slash", "it's", "100%", "under_score", "a%b", "x_y_z", "Foo_bar", "d:\\dir", "q?", "*star*", "[sq]", "semi;colon", "pi|pe"]
 LOOKALIKE = ["o", "x", "P5", "1230", "2024-01-01", "240510", "240510#0K", "~", "<", ">"]
 PAGES = ["a", "ab", "a_b", "axb", "b", "bb", "proj/a", "proj/sub/x", "notes_2024", "log/day1", "foo", "foo_bar"]
 
@@ -54,7 +54,7 @@ def gen_word(rng, ctx):
         if k == "due":
             v = "%04d-%02d-%02d" % (rng.randint(2023, 2025), rng.randint(1, 12), rng.randint(1, 28))
         elif k in ("n", "est"):
-            v = str(rng.choice([0, 1, 5, 7, 10, 42, 100, 7]))
+            v = str(rng.choice([0, 10, 15, 17, 42, 100, 17, 5]))
         else:
             v = rng.choice(["abc", "Abc", "b", "zz", "m1", "top"])
         return f"{k}::{v}"
